@@ -7,7 +7,7 @@ from sa import util
 from rules.c13 import carrier_set
 
 PROPERTY = "C09"
-NEEDS_PYX = False
+NEEDS_PYX = True
 V = "whatshap.vcf"
 W = V + ".PhasedVcfWriter"
 R = V + ".VcfReader"
@@ -477,13 +477,22 @@ def r5(ctx):
     c07.r5(ctx)
 
 
+def r6(ctx):
+    # whether a pseudo read fits under the cap is tested on its own span: the half-open convention between the producer of
+    # (begin, end) and the coverage monitor decides this clause of C09 as it does for C07
+    from rules import c07
+
+    c07.r2(ctx)
+
+
 RULES = [
     ("C09.R1", "HP and PS writer/reader grammar agreement", r1),
     ("C09.R2", "kill set: every decoder carrier cleared for every target call, both tags", r2),
     ("C09.R3", "GT normalisation (sorted) precedes the setter for both tags", r3),
     ("C09.R4", "phased blocks -> complementary pseudo reads", r4),
     ("C09.R5", "pseudo reads pass read selection under the per-sample share of the cap (C07.R5)", r5),
+    ("C09.R6", "the cap is tested on the read's own (half-open) span (C07.R2)", r6),
 ]
 # instance floors: about 60% of the instances confirmed by hand on the reference tree -- a rule that suddenly matches far fewer
 # sites fails the run (exit 2); a clean-up that merges two sites into one does not
-FLOORS = {"C09.R1": 9, "C09.R2": 4, "C09.R3": 1, "C09.R4": 4, "C09.R5": 4}
+FLOORS = {"C09.R1": 9, "C09.R2": 4, "C09.R3": 1, "C09.R4": 4, "C09.R5": 4, "C09.R6": 4}
